@@ -143,3 +143,34 @@ Definition link_ok (k : kind) (is_base : bool) (t : tref) : Prop :=
    else t_fd t = None) /\
   (is_base = true -> k = Yidentityref -> t_idbase t <> None) /\
   nodup_names (t_enums t) = true /\ nodup_names (t_bits t) = true.
+
+(* ------------------------------------------------------------------ the path the resolver follows
+   One step is the model's lookup (tied to binds by lookup_sound / lookup_none / lookup_exact); lchain is chain
+   read along these steps, reaches/cyclic say that following them from a reference meets a typedef, resp. that a
+   typedef is based on itself, directly or through other typedefs. *)
+Inductive lchain (S : schema) : site -> tref -> list (tdkey * typedef) -> kind -> Prop :=
+| LChBase : forall st t k, lookup_type S st (t_name t) = LBuiltin k -> lchain S st t [] k
+| LChStep : forall st t key td rest k,
+    lookup_type S st (t_name t) = LFound key td ->
+    lchain S (site_of key) (td_type td) rest k ->
+    lchain S st t ((key, td) :: rest) k.
+
+Inductive reaches (S : schema) : site -> tref -> tdkey -> typedef -> Prop :=
+| R_one : forall st t key td, lookup_type S st (t_name t) = LFound key td -> reaches S st t key td
+| R_more : forall st t k1 td1 key td,
+    lookup_type S st (t_name t) = LFound k1 td1 ->
+    reaches S (site_of k1) (td_type td1) key td -> reaches S st t key td.
+
+Definition cyclic (S : schema) (key : tdkey) (td : typedef) : Prop := reaches S (site_of key) (td_type td) key td.
+
+(* the same with the declarative binding *)
+Inductive breaches (S : schema) : site -> tref -> tdkey -> typedef -> Prop :=
+| BR_one : forall st t key td, binds S st (t_name t) key td -> breaches S st t key td
+| BR_more : forall st t k1 td1 key td,
+    binds S st (t_name t) k1 td1 ->
+    breaches S (site_of k1) (td_type td1) key td -> breaches S st t key td.
+
+(* every member type of every link of a chain has the type P assigns *)
+Definition members_ok (P : site -> tref -> yangtype -> Prop) (lks : list (site * tref)) (mss : list (list yangtype))
+  : Prop :=
+  Forall2 (fun l ms => Forall2 (P (fst l) (snd l)) (t_members (snd l)) ms) lks mss.
